@@ -516,7 +516,19 @@ func genConfig(out *bufio.Writer, rng *rand.Rand, random int) int {
 		if cfg.CoreSize > 3 && rng.Intn(2) == 0 {
 			cfg.CoreSize = gmars.Address(3 + rng.Intn(200))
 		}
+		if rng.Intn(6) == 0 {
+			// Mode is an exported uint8-like field that Validate does not look at: any value other
+			// than ICWS88 / NOP94 behaves as ICWS94
+			cfg.Mode = gmars.SimulatorMode(3 + rng.Intn(253))
+		}
 		emit(cfg)
+	}
+	// valid configurations whose Mode is none of the three named values (also the presets with it)
+	for _, mo := range []int{3, 4, 17, 127, 128, 255} {
+		emit(gmars.NewQuickConfig(gmars.SimulatorMode(mo), gmars.Address(8+rng.Intn(50)), 8, 100, 4))
+		pc := []gmars.SimulatorConfig{gmars.ConfigNOP94, gmars.ConfigICWS88, gmars.ConfigNopTiny}[rng.Intn(3)]
+		pc.Mode = gmars.SimulatorMode(mo)
+		emit(pc)
 	}
 	return n
 }
